@@ -191,20 +191,14 @@ def _cleave(ctx, f):
               "peptides are only ever added to the result",
               f"result is reduced by {[ast.unparse(r)[:40] for r in removes]}",
               node=f.node)
-    added = []      # (call node, value term)
-    for n in ast.walk(ol):
-        if isinstance(n, ast.Call) and isinstance(n.func, ast.Attribute) \
-                and isinstance(n.func.value, ast.Name) and \
-                n.func.value.id == RES and len(n.args) == 1:
-            if n.func.attr == "add":
-                added.append((n, T.of(n.args[0])))
-            elif n.func.attr in ("union", "update"):
-                at = T.of(n.args[0])
-                ctx.require(at[0] in ("set", "list", "tuple"),
-                            f"{f.qual}: {n.func.attr}() of something that "
-                            f"is not a display: {show(at, 80)}")
-                for e in at[1]:
-                    added.append((n, e))
+    added = []      # (node, value term)
+    from ..events import accumulations
+    for n, e in accumulations(f.node, T, RES):
+        if not inside(n, ol):
+            continue
+        ctx.require(e[0] != "*", f"{f.qual}: the result grows by something "
+                    f"that is not a display: {show(e, 80)}")
+        added.append((n, e))
     ctx.floor("C17a-added-values", len(added), 4)
 
     def slice_base(t):
